@@ -750,6 +750,76 @@ def stale_cached_properties(project: Project, classes=None) -> List[dict]:
     return out
 
 
+_FRESH_CALLS = ("copy", "deepcopy", "array", "list", "dict", "set", "tuple", "asarray_chkfinite", "zeros_like", "empty_like")
+
+
+def _fresh_value(e) -> bool:
+    if isinstance(e, (ast.ListComp, ast.DictComp, ast.SetComp, ast.List, ast.Dict, ast.Set, ast.BinOp)):
+        return True
+    if isinstance(e, ast.Call):
+        f = e.func
+        nm = f.attr if isinstance(f, ast.Attribute) else getattr(f, "id", "")
+        return nm in _FRESH_CALLS
+    return False
+
+
+def shallow_copy_writes(project: Project, classes=None) -> List[dict]:
+    """Pattern I — a class whose `copy()` starts from a shallow copy of the object (`copy.copy(self)`, `__new__` +
+    `__dict__.update`) and re-copies SOME attributes, and a method that takes `self.copy()` and then writes into an attribute
+    of the copy in place (`out.cols[mask] = -1`): when that attribute is not among the re-copied ones, the write lands in the
+    array the original still holds.  dict(fi, node, attr, cls, why)."""
+    out = []
+    for cq, c in sorted(project.classes.items()):
+        if classes is not None and cq not in classes:
+            continue
+        cp = c.methods.get("copy")
+        if cp is None or not isinstance(cp.node, ast.FunctionDef) or not cp.node.args.args:
+            continue
+        me = cp.node.args.args[0].arg
+        base = None
+        for n in ast.walk(cp.node):
+            if isinstance(n, ast.Assign) and len(n.targets) == 1 and isinstance(n.targets[0], ast.Name) and isinstance(n.value, ast.Call):
+                t = ast.unparse(n.value)
+                if t in (f"copy.copy({me})", f"copy({me})", f"{me}.__copy__()") or ".__new__(" in t:
+                    base = n.targets[0].id
+        if base is None:
+            continue
+        if any(isinstance(n, ast.Call) and ast.unparse(n.func).endswith("deepcopy") for n in ast.walk(cp.node)):
+            pass
+        rets = [r for r in ast.walk(cp.node) if isinstance(r, ast.Return) and isinstance(r.value, ast.Name) and r.value.id == base]
+        if not rets:
+            continue
+        fresh = {n.targets[0].attr for n in ast.walk(cp.node) if isinstance(n, ast.Assign) and len(n.targets) == 1
+                 and isinstance(n.targets[0], ast.Attribute) and isinstance(n.targets[0].value, ast.Name)
+                 and n.targets[0].value.id == base and _fresh_value(n.value)}
+        # a loop `for name in (...): setattr(out, name, getattr(self, name).copy())` re-copies names we do not enumerate
+        if any(isinstance(n, ast.Call) and isinstance(n.func, ast.Name) and n.func.id == "setattr" for n in ast.walk(cp.node)):
+            continue
+        for m in c.methods.values():
+            if not isinstance(m.node, ast.FunctionDef) or not m.node.args.args or m is cp:
+                continue
+            s_ = m.node.args.args[0].arg
+            copies = {n.targets[0].id for n in ast.walk(m.node) if isinstance(n, ast.Assign) and len(n.targets) == 1
+                      and isinstance(n.targets[0], ast.Name) and ast.unparse(n.value) in (f"{s_}.copy()", f"copy.deepcopy({s_})")}
+            if not copies:
+                continue
+            for n in ast.walk(m.node):
+                tgt = None
+                if isinstance(n, ast.Assign):
+                    tgt = [t for t in n.targets if isinstance(t, ast.Subscript)]
+                elif isinstance(n, ast.AugAssign):
+                    tgt = [n.target]
+                for t in tgt or []:
+                    b = t.value if isinstance(t, ast.Subscript) else t
+                    if isinstance(b, ast.Attribute) and isinstance(b.value, ast.Name) and b.value.id in copies and b.attr not in fresh:
+                        out.append(dict(fi=m, node=n, attr=b.attr, cls=c,
+                                        why=f"`{ast.unparse(n)[:60]}` in {c.name}.{m.name} writes into `{b.attr}` of a copy taken with "
+                                            f"`{s_}.copy()`, but {c.name}.copy() starts from a shallow copy and re-copies only "
+                                            f"{sorted(fresh) or 'nothing'}: `{b.attr}` is still the array the original holds, so the "
+                                            f"original is changed too"))
+    return out
+
+
 def check(project: Project, rep, rule: str = "ST-CACHE"):
     """module-level caches written by the code a check analysed (and what it calls): a cache that is keyed by too little
     makes the analysed function's result depend on earlier calls — whatever that function computes.  Only the two memo
@@ -805,6 +875,9 @@ def check(project: Project, rep, rule: str = "ST-CACHE"):
     for r in setter_bypasses(project, reached):
         n += 1
         rep.refuted(rule, r["fi"], r["node"], r["why"], construct=f"{r['fi'].qualname}: setter of {r['prop']} bypassed")
+    for r in shallow_copy_writes(project, reached):
+        n += 1
+        rep.refuted("ST-ALIAS", r["fi"], r["node"], r["why"], construct=f"{r['fi'].qualname}: in-place write into shared {r['attr']}")
     for r in stale_cached_properties(project, reached):
         n += 1
         rep.refuted(rule, r["fi"], r["node"], r["why"], construct=f"{r['fi'].qualname}: cached_property over {r['attr']}")
